@@ -28,6 +28,8 @@ RULE = ('random portfolios incl. order books with out-of-horizon orders (row-les
         'complete interval data, price keys, arrays, numbers - the documented default (0 resp. 1) applies where nothing is given (capacities have none: always complete); every eighth case also split; '
         'non-trivial = problem with >= 2 assets and >= 1 nodal row; distinct by scenario hash')
 ASSUMPTIONS = []
+from ..comp import linked as _LK
+THEOREMS = THEOREMS + [t for t in _LK.THEOREMS_LINKED if t[1].split('.')[-1] in ['linked_wf', 'linked_rows_lt_n', 'linked_costs_only', 'several_labels', 'no_matrix']]
 PARTIAL = ['cost vectors for price samples (costs_only): NaN entries and length only (length not for periodic assets: finding F-17e of C17); that they equal the cost vector of the problem is C17\'s statement; '
            'arrays as parameters are drawn for top-level assets of unsplit set-ups only (an array has one entry per step of the asset\'s window; in a split set-up no array fits all intervals); '
            'transports take numbers only (their constructor compares the capacities as numbers)',
@@ -93,6 +95,11 @@ def scenarios(seed, tier):
         s = c07gen.gen_param_portfolio(random.Random(rnd.getrandbits(48)), tmax=12 if tier == 'quick' else 20, arrays=(i % 8 != 7))
         s['split'] = (i % 8 == 7)
         yield 'param%d' % i, s
+    # LinkedAsset (comp/linked.py): the model of the linking loop against the real set-up, on captured and on generated structured problems
+    from ..comp import linked as LK
+    _rl = random.Random(seed * 15485863 + 71)
+    for i in range(60 if tier == 'quick' else 400):
+        yield 'lk%d' % i, {'_stream': 'linked', 'case': LK.gen_case(_rl.__class__(_rl.getrandbits(48)), tmax=6)}
 
 
 def coarse_intervals(rec, drv, feats):
@@ -431,6 +438,11 @@ def default_written_out(scn, rec, feats):
 
 
 def run_case(scn, drv):
+    if isinstance(scn, dict) and scn.get('_stream') == 'linked':
+        from ..comp import linked as LK
+        r = LK.run_case(scn['case'], drv, with_oracle=False)      # the tie of the linked model; its documented-behaviour oracle states no property of this list
+        r['features'] = ['stream:linked'] + list(r.get('features', []))
+        return r
     r = {'evaluated': 1, 'nontrivial': False, 'features': [], 'disagreements': [], 'violations': []}
     feats = r['features']
     for a in scn['assets']:
